@@ -86,13 +86,31 @@ func (g *G) header() {
 	}
 }
 
+func (g *G) advNames() *AdvNames {
+	if g.adv == nil {
+		g.adv = NewAdvNames(g.rt, "adv")
+	}
+	return g.adv
+}
+
 func (g *G) comdats() {
 	n := g.rng("ncomdats", 0, 2)
 	if g.cfg.Big {
 		n = g.rng("ncomdatsbig", 8, 10)
 	}
+	advCD := g.chance("cdadv", 1, 3)
+	if advCD && n > 0 {
+		n += 2
+	}
 	for i := 0; i < n; i++ {
-		g.M.Comdats = append(g.M.Comdats, &am.Comdat{Name: g.fresh("cd"), Kind: g.pick("cdkind", []string{"any", "exactmatch", "largest", "nodeduplicate", "samesize"})})
+		name := g.fresh("cd")
+		if advCD {
+			if a := "cd." + g.advNames().Draw(g.rt, "cdname"); !g.used[a] {
+				g.used[a] = true
+				name = a
+			}
+		}
+		g.M.Comdats = append(g.M.Comdats, &am.Comdat{Name: name, Kind: g.pick("cdkind", []string{"any", "exactmatch", "largest", "nodeduplicate", "samesize"})})
 	}
 }
 
@@ -603,8 +621,18 @@ func (g *G) metadata() {
 	if g.cfg.Big {
 		nn = g.rng("nnamedmdbig", 8, 10)
 	}
+	advNMD := g.chance("nmdadv", 1, 3)
+	if advNMD {
+		nn += 2
+	}
 	for i := 0; i < nn; i++ {
 		nm := &am.NamedMD{Name: g.pick("nmdname", []string{"my.md", "foo", "llvm.ident", "odd name", "x.9"}) + itoa(i)}
+		if advNMD {
+			if a := "nmd." + g.advNames().Draw(g.rt, "nmdadvname"); !g.used[a] {
+				g.used[a] = true
+				nm.Name = a
+			}
+		}
 		for k := g.rng("nnmdnodes", 0, 3); k > 0; k-- {
 			nm.Nodes = append(nm.Nodes, &am.MDField{K: am.MDRef, Node: g.M.MDs[g.intn("nmdref", len(g.M.MDs))]})
 		}
